@@ -14,7 +14,7 @@ RULE = ("construction: model.rating / create_rating for every (mu, sigma) of the
         "classes; 10^4 ids distinct; deepcopy of ratings, teams and leagues; differential: every game of T3|V6, P3 and G4|V6 rated / "
         "predicted with the original objects, with objects rebuilt by create_rating([mu,sigma]), by model.rating(mu,sigma) and by "
         "deepcopy must give bit-identical numbers; E2: restore / deepcopy transitions interleaved with every operation of the "
-        "reduced alphabet to depth 2 (quick) / 3 (thorough), I5 on every restore/copy transition and I2 on every transition whose "
+        "reduced alphabet to depth 2 (thorough adds depth 4 over the small alphabet), I5 on every restore/copy transition and I2 on every transition whose "
         "history contains one; non-trivial = construction with at least one explicit non-default argument, or a differential "
         "case whose posterior differs from the prior")
 ASSUMPTIONS = ["name='' and name=None both mean 'no name' (create_rating maps one to the other)",
@@ -212,7 +212,12 @@ def main(ctx, t0):
     acc = core.run_units(units(ctx), run_unit, ctx)
     core.deterministic_ids(0)
     searches = [(k, c, "reduced") for k in spaces.KINDS for c in (("default", "limit") if ctx.thorough else ("default",))]
-    stats, a2 = e2.explore(searches, 3 if ctx.thorough else 2, ctx, chunk=16, invs=("I5", "I2", "R7"))
+    stats, a2 = e2.explore(searches, 2, ctx, chunk=16, invs=("I5", "I2", "R7"))
+    if ctx.thorough:  # deeper histories over the small alphabet (depth 4: every state reachable by three calls is expanded)
+        deep = [(k, c, "small") for (k, c, _) in searches]
+        stats_d, a2d = e2.explore(deep, 4, ctx, chunk=64, invs=("I5", "I2", "R7"))
+        stats.update(stats_d)
+        a2.merge(a2d)
     restore_ops = {}
     for key in searches:
         s = e2._search(key)
